@@ -1,13 +1,21 @@
 (* Property C01, two-sided, over the two-handler system and EVERY fault schedule — whenever the receiving entity has
    reported a successful delivery, the destination file is byte-identical to the source file or differs only by a genuine
-   collision of the negotiated CRC; whatever the link dropped, duplicated or delayed (any number of faults, any PDU of
-   either direction), in both transmission modes, with or without closure, immediate or deferred NAK, after any number
-   of scheduler rounds (so: at every moment of the run, at round granularity).  System.v: both handler models, the link
-   with its fault schedule (drop / duplicate / delay; payload corruption is not modelled there: see props/C01b.v for the
-   receiver-side statement that covers arbitrary PDU contents), the surrounding-entity duties, the clock.
-   Composition of: every File Data PDU the sender ever emits carries bytes of the source file at its offset (whole sender
-   FSM), the EOF (No Error) carries the checksum and size of the source file (C07/C09), the link only delivers what was
-   emitted, the receiver only writes what it is handed (C05) and reports success only from a verified state (C01b). *)
+   collision of the negotiated CRC (same length, same CRC); whatever the link dropped, duplicated or delayed (any number
+   of faults, any PDU of either direction), in both transmission modes, with or without closure, immediate or deferred
+   NAK, after any number of scheduler rounds (so: at every moment of the run, at round granularity).  System.v: both
+   handler models, the link with its fault schedule (drop / duplicate / delay; payload corruption is not modelled there:
+   see props/C01b.v for the receiver-side statement that covers arbitrary PDU contents), the surrounding-entity duties,
+   the clock.
+   Composition of: every PDU the sender ever queues is genuine for the source file (File Data carries the bytes of the
+   file at its offset, new tiles and retransmissions alike; every EOF carries size and checksum of the whole file; the
+   Metadata carries the names, the size, the checksum type) as an invariant of the whole sender state machine for
+   arbitrary inbound PDUs; the link only delivers what was emitted; the receiver, fed genuine PDUs in any order and
+   multiplicity, never makes the file longer than the source, tracks every byte below its progress that is not in the
+   file, and records "data complete" only for a file as long as the source whose checksum is that of the EOF (C05, C06,
+   C01b; the F31 repair makes the verification fail while data is known to be missing); a transaction reported
+   successful is never restarted (duties of the surrounding entity).
+   Hypotheses beyond the addressing: a segment length limit, if configured, is positive (with a limit <= 0 the sender
+   emits empty or backward File Data), the transmission mode is one of the two defined ones. *)
 From CFDP Require Import Base LostSeg Fs Crc Checksum ChecksumSpec Handler Dest Source SourceSpec System.
 From CFDP.proofs Require Import SystemSuccessProofs.
 
@@ -15,8 +23,10 @@ Theorem c01_system_success_means_identical :
   forall (cs cd : lcfg) (seq0 bits : Z) (p : putreq) (sn dn : path) (data : bytes) (faults : list fault)
          (fuel : nat) (tick : Z) (rs : rcfg),
   get_remote (l_remotes cs) (pr_dst p) = Some rs ->
-  pr_names p = Some (sn, dn) -> sn <> [] -> length dn = 1%nat -> pr_msgs p = None ->
-  (r_cktype rs = CK_CRC32 \/ r_cktype rs = CK_CRC32C) -> bytes_ok data = true ->
+  pr_names p = Some (sn, dn) -> sn <> [] -> length dn = 1%nat ->
+  (r_cktype rs = CK_CRC32 \/ r_cktype rs = CK_CRC32C) ->
+  match r_max_seg rs with Some m => 1 <= m | None => True end ->
+  (let mode := match pr_mode p with Some m => m | None => r_mode rs end in mode = ACKED \/ mode = UNACKED) ->
   let res := transfer cs cd seq0 bits p sn data faults fuel tick in
   let y := fst res in
   existsb success_event (e_log (d_env (y_dst y))) = true ->
